@@ -9,6 +9,18 @@ import inspect
 from six import iteritems
 
 
+def _getargspec(f):
+    """Return (args, varargs, keywords, defaults) for a function.
+
+    :py:func:`inspect.getargspec` was removed in Python 3.11; use
+    :py:func:`inspect.getfullargspec` where it is available.
+    """
+    if hasattr(inspect, "getfullargspec"):
+        return tuple(inspect.getfullargspec(f)[:4])
+    else:  # pragma: no cover
+        return tuple(inspect.getargspec(f))
+
+
 def add_int_enums_to_docstring(enum):
     """Decorator for IntEnum which re-writes the documentation string so that
     Sphinx enumerates all the enumeration values.
@@ -109,7 +121,7 @@ def add_signature_to_docstring(f, include_self=False, kw_only_args={}):
     """
 
     def decorate(f_wrapper):
-        args, varargs, keywords, defaults = inspect.getargspec(f)
+        args, varargs, keywords, defaults = _getargspec(f)
 
         # Simplifies later logic
         if defaults is None:
